@@ -202,7 +202,7 @@ def run(ctx):
     ctx.samples = [{"request": reqs[i][:200], "implementation": impl[i][:160]} for i in (5, n_single + 3, len(reqs) - 1)]
     ctx.assumptions += ["ArgsConform: arguments conform to the grammar (optional operands as a trailing run, parameters only on the last parameterised operand of a call, literal widths consistent with tracked types, OpSwitch selectors untracked); histories complete; no begin_block_no_label (known finding)",
                         "C06_roundtrip / C06_scope: for complete plain histories (no select_function/select_block/pop_instruction/raw insertion, terminators appended at the end, end_function only with no open block) whose module is a stream of instructions of the grammar, load_bytes(assemble(module)) = Ok(module) is a theorem; 'instruction of the grammar' is defined through the recogniser Spec.inst (C03: what the parser accepts); the other histories are decided by the differential only"]
-    return C.finish(ctx, level="proof", checker_cmd="lake build Rspirv.Props.C06End (method table merge-walk, Builder invariant, canonical reload, end-to-end theorem) + #print axioms",
+    return C.finish(ctx, level="proof", checker_cmd="lake build Rspirv.Props.C06Typed (method table merge-walk, Builder invariant, canonical reload, end-to-end theorem, typed arguments) + #print axioms",
                     rule="every generated instruction-emitting method called once in a minimal complete history with grammar-conforming arguments, plus seeded complete histories over all methods; distinct non-trivial = distinct histories",
                     trusted=["translator builder.py", "hand models + differential harness (chan/build.rs buildrt)"])
 
